@@ -72,6 +72,21 @@ def both_modes(fn, target, nodeset, what, case, stats):
         if id(e[2]) not in nodeset:
             raise Violation("collecting-foreign-node", f"{what}: reported node is not part of the tree", case)
         stats.add("code:" + e[0].name)
+    # collecting is independent of what the list already holds: a second run into the same list appends the same again
+    n1 = len(errs)
+    if n1 > 1:
+        try:
+            fn(target, errs)
+        except Exception as e:  # noqa
+            raise Violation(f"collecting-raised:{type(e).__name__}@{frame_of(e)}",
+                            f"{what} into a non-empty list raised {type(e).__name__}: {e}", case)
+        first = [(e[0], e[1], id(e[2])) for e in errs[1:n1]]
+        second = [(e[0], e[1], id(e[2])) if isinstance(e, tuple) and len(e) >= 3 else e for e in errs[n1:]]
+        if first != second:
+            raise Violation("collecting-depends-on-prior-list-content",
+                            f"{what}: a second run into the same list appended {[x[0].name if isinstance(x, tuple) else x for x in second][:6]}, "
+                            f"the first run {[x[0].name for x in first][:6]}", case)
+        del errs[n1:]
     cc = len(errs) == 1
     if cc != ff:
         raise Violation("modes-disagree:" + what,
